@@ -843,3 +843,40 @@ C05_PAD = dict(
     assign_effects=[("result[__i, :__a.shape[0], :__a.shape[1]] = __a", "result'", "set_block {state} {i} {a}")],
 )
 ALL += [C05_PAD, C05_HETERO, C05_HOMO]
+
+# dbal_fast_gauss_scoring_vectorized: its two non-numeric runs of top-level statements (py2gal body_slice).  The tensor
+# expressions between and after them (mask, nan_to_num, alpha ... logsumexp) are NOT translated: correspondence only.
+_KERNEL_FN = dict(
+    file="src/batchie/scoring/gaussian_dbal.py", func="dbal_fast_gauss_scoring_vectorized", out="SrcDbal.v",
+    imports="Lib.Num Model.Dbal", overload=True,
+    pyparams=["predictions", "variances", "distance_matrix", "rng", "max_combos", "distance_factor"], pydefaults=["5000", "1.0"],
+)
+C05_KERNEL_CHECKS = dict(
+    _KERNEL_FN, name="src_kernel_checks",
+    body_slice=("if variances.shape != predictions.shape:", "if distance_matrix.shape[0] != predictions.shape[1]:"),
+    params=[("predictions", "arr3"), ("variances", "arr3n"), ("distance_matrix", "arr2")], returns="unit", vars={},
+    prims=[("__a.shape != __b.shape", "shape3_ne {a} {b}", "bool", {"a": "arr3n", "b": "arr3"}),
+           ("__a.shape[0]", "dim0 {a}", "Z", {"a": "arr2"}), ("__a.shape[1]", "dim1 {a}", "Z", {"a": "arr2"}),
+           ("__a.shape[1]", "dim3_1 {a}", "Z", {"a": "arr3"})],
+    raises=[("variances and predictions should have same shape", 20), ("dists must be square", 21),
+            ("must have the same n_thetas dimension", 22)],
+    implicit_return="tt",
+)
+C05_KERNEL_TRIPLES = dict(
+    _KERNEL_FN, name="src_kernel_triples",
+    body_slice=("n_plates, n_thetas, max_experiments_per_plate = predictions.shape", "idx3 = np.array(idx3)"),
+    params=[("predictions", "arr3"), ("max_combos", "Z"), ("draws", "list list Z")],
+    returns="((list Z * list Z * list Z) * list list Z)",
+    vars={"n_plates": "Z", "n_thetas": "Z", "max_experiments_per_plate": "Z", "n_theta_combinations": "Z", "n_combos": "Z",
+          "unpacked_indices": "list Z", "ind": "Z", "idx1": "list Z", "idx2": "list Z", "idx3": "list Z"},
+    prims=[("predictions.shape", "shape3z predictions'", "(Z * Z * Z)"),
+           ("comb(__n, 3, exact=True)", "comb3 {n}", "Z", {"n": "Z"}),
+           ("min(__a, __b)", "Z.min {a} {b}", "Z", {"a": "Z", "b": "Z"}),
+           ("get_combination_at_sorted_index(__i, __n, 3)", "!unrank3 {i} {n}", "(Z * Z * Z)", {"i": "Z", "n": "Z"}),
+           ("zip(*__l)", "!unzip3 {l}", "(list Z * list Z * list Z)", {"l": "list (Z * Z * Z)"}),
+           ("np.array(__a)", "{a}", "list Z", {"a": "list Z"})],          # a tuple of ints as an index array: the same values
+    state_calls=[("rng.choice(__n, size=__k, replace=False)", ["draws"], "rng_choice {n} {k} draws", "list Z", {"n": "Z", "k": "Z"})],
+    raises=[("Need at least 3 thetas to compute PDBAL", 23)],
+    implicit_return="(({idx1}, {idx2}, {idx3}), draws)",      # the three index arrays and the recorded answers not yet consumed
+)
+ALL += [C05_KERNEL_CHECKS, C05_KERNEL_TRIPLES]
